@@ -73,8 +73,14 @@ def rule_one_mask(ctx: Ctx) -> None:
             "map path and learner path do not both reach _mask_fixed_axes", key="shared")
     mf = P.func(f"{RUN}._mask_fixed_axes")
     its = [it for it in iterations(mf.node) if ".get(" in norm(getattr(it["node"], "elt", it["node"]))]
-    by_out = [it for it in its if norm(it["iter"]).endswith(".output_indices")]
-    other = [it for it in its if not norm(it["iter"]).endswith(".output_indices")]
+    # over the output axes - directly, or zipped with the mask / enumerated (the position is still that of the output axis)
+    def over_outputs(e: ast.AST) -> bool:
+        if norm(e).endswith(".output_indices"):
+            return True
+        return isinstance(e, ast.Call) and dotted(e.func) in ("zip", "enumerate") and bool(e.args) and norm(e.args[0]).endswith(".output_indices")
+
+    by_out = [it for it in its if over_outputs(it["iter"])]
+    other = [it for it in its if not over_outputs(it["iter"])]
     ctx.tri("2-one-mask", mf, (other or by_out or [{"node": mf.node}])[0]["node"], bool(by_out) and "slice(None)" in norm(mf.node) and not other, bool(other),
             "one entry per output axis: the user's int/slice, or a full slice", f"the selection key is enumerated over `{norm(other[0]['iter']) if other else ''}`, not over the output axes: entries land on the wrong axis",
             "construction of the selection key not recognised", key="key-def")
